@@ -2,11 +2,11 @@
 import glob, json, os
 import vlib
 
-TARGETS = ["Base/Corr.vo", "C12/Spec.vo", "C12/ModelS.vo", "C12/ModelM.vo", "C12/ProofsS.vo", "C12/ProofsClone.vo",
-           "C12/ProofsSW.vo", "C12/ProofsSWExample.vo", "C12/ProofsM.vo", "C12/ProofsV.vo", "C12/Corr.vo", "C12/CorrZ.vo",
-           "C12/Props.vo"]
+TARGETS = ["Base/Corr.vo", "C12/Spec.vo", "C12/ModelS.vo", "C12/ModelM.vo", "C12/ModelH.vo", "C12/ProofsS.vo", "C12/ProofsClone.vo",
+           "C12/ProofsSW.vo", "C12/ProofsSWExample.vo", "C12/ProofsM.vo", "C12/ProofsV.vo", "C12/ProofsH.vo", "C12/Corr.vo", "C12/CorrZ.vo",
+           "C12/CorrH.vo", "C12/Props.vo"]
 PROPS = ["C12/Props.v"]
-STREAMS = [("scases", "S"), ("mcases", "M"), ("vcases", "V"), ("ecases", "E")]
+STREAMS = [("scases", "S"), ("mcases", "M"), ("vcases", "V"), ("ecases", "E"), ("hcases", "H")]
 PARTIAL = (
     "Proved in Coq, for ALL carriers / register files / heaps / histories, about the models coq/C12/ModelS.v (scalars and dense "
     "vectors of magic scalars as object ids over C01's register file), coq/C12/ModelM.v (dense matrix handles over C10's storage "
@@ -53,7 +53,13 @@ def is_known(finding):
         m = f.get("match", {})
         if m.get("stream") != finding.get("stream"):
             continue
-        if m.get("stream") == "E":
+        if m.get("stream") == "H":
+            case = finding.get("case") or {}
+            ent = case.get("entry") or ""
+            names = [x.split("#")[0] for x in (case.get("changed") or []) + (case.get("retained") or [])]
+            if ent in m.get("entries", []) and names and all(n in m.get("objects", []) for n in names):
+                return f
+        elif m.get("stream") == "E":
             case = finding.get("case") or {}
             changed = case.get("changed") or []
             ent = case.get("entry") or ""
@@ -82,7 +88,7 @@ def corr(ctx, binary, n):
         vlib.merge_meta(ctx, meta)
         shards = sorted(glob.glob(os.path.join(ctx.dir, stem + "_*.v")), key=lambda p: int(p[:-2].rsplit("_", 1)[1]))
         res = vlib.eval_shards(shards)
-        ctx.oblige(len(res), sum(1 for r in res if r["ok"] or r["mism"] is not None and tag == "E"))
+        ctx.oblige(len(res), sum(1 for r in res if r["ok"] or r["mism"] is not None and tag in ("E", "H")))
         cases = vlib.load_jsonl(os.path.join(ctx.dir, stem + ".jsonl"))
         total += len(cases)
         b = []
@@ -130,7 +136,7 @@ def run(ctx):
         return
     n = 160 if ctx.tier == "quick" else 1600
     bad = corr(ctx, binary, n)
-    handed = [c for tag in ("S", "M", "V", "E") for c in bad.get(tag, [])]
+    handed = [c for tag in ("H", "S", "M", "V", "E") for c in bad.get(tag, [])]
     finds = hunt(ctx, binary, handed)
     unknown = []
     for f in finds:
@@ -143,6 +149,7 @@ def run(ctx):
     ctx.cov.setdefault("extra", {})["hunt_findings"] = len(finds)
     # E cases flagged by Coq that are not covered by a known finding
     e_unknown = [c for c in bad.get("E", []) if not is_known({"stream": "E", "case": c, "failure": ""})]
+    h_unknown = [c for c in bad.get("H", []) if not is_known({"stream": "H", "case": c, "failure": ""})]
     model_bad = [c for tag in ("S", "M", "V") for c in bad.get(tag, [])]
     for f in unknown[:5]:
         ctx.violation({"case": f["case"], "failure": f["failure"], "site": f["site"], "at": f.get("at"),
@@ -152,6 +159,10 @@ def run(ctx):
         for c in e_unknown[:3]:
             ctx.violation({"case": c, "obligation": "C12.Corr.echeck"}, True,
                           "entry point %s (%s) changed its input object(s) %s" % (c.get("entry"), c.get("opts"), c.get("changed")))
+        for c in h_unknown[:3]:
+            ctx.violation({"case": c, "obligation": "C12.CorrH.hcheck"}, True,
+                          "sequence of %s calls sharing one InSitu struct / estimator (%s): retained reference to %s, later change of %s" % (
+                              c.get("entry"), c.get("opts"), c.get("retained"), c.get("changed")))
         for f in failures:
             ctx.violation({"obligation": f["target"], "lemma": f["lemma"], "errors": f["errors"]}, False,
                           "proof obligation no longer checks: %s %s" % (f["target"], f["lemma"] or ""))
